@@ -48,7 +48,7 @@ DATA_POOL = {
     "g": ["G"],
     # read from the render context by the context-aware extra filters (currency, money, decimal, unit, datetime, t)
     "currency_code": ["USD", "EUR", "JPY"],
-    "locale": ["en_US", "de_DE", "fr"],
+    "locale": ["en_US", "de_DE", "fr", "tlh", "xx_XX"],     # the last two: identifiers Babel does not know
     "timezone": ["UTC", "America/New_York", "Asia/Tokyo"],
     "you": ["World", "Ann"],
 }
@@ -849,6 +849,9 @@ def gen_recipe(rng, extra_p=0.5):
             "block_nesting_limit": rng.weighted([(30, 8), (2, 1), (3, 2), (5, 1)]),
         },
         "globals": rng.weighted([({}, 5), ({"g": "EG", "site": "S"}, 3)]),
+        # the documented way to configure the number / currency filters: register instances with another
+        # fallback locale (only with extra=True)
+        "babel_default": rng.weighted([(None, 6), ("de", 2), ("fr", 1)]),
     }
 
 
@@ -880,9 +883,16 @@ def build_env(recipe, loader=None, delims=None, subclass=None):
         kw = {"template_comments": True, "comment_start_string": d["cs"], "comment_end_string": d["ce"]}
     elif recipe.get("comment_delims_always"):
         kw = {"comment_start_string": d["cs"], "comment_end_string": d["ce"]}
-    return cls(
+    env = cls(
         extra=recipe["extra"], tag_start_string=d["ts"], tag_end_string=d["te"],
         statement_start_string=d["os"], statement_end_string=d["oe"],
         tolerance={"strict": Mode.STRICT, "warn": Mode.WARN, "lax": Mode.LAX}[recipe["mode"]],
         loader=loader, undefined=und, strict_filters=recipe["strict_filters"], autoescape=recipe["autoescape"],
         globals=dict(recipe["globals"]) or None, **kw)
+    if recipe["extra"] and recipe.get("babel_default"):
+        from liquid.extra import Currency, Number
+        env.add_filter("currency", Currency(default_locale=recipe["babel_default"]))
+        env.add_filter("money", Currency(default_locale=recipe["babel_default"]))
+        env.add_filter("decimal", Number(default_locale=recipe["babel_default"],
+                                         default_input_locale=recipe["babel_default"]))
+    return env
